@@ -338,3 +338,8 @@ CONTRACTS = [
                                       'pony.orm.core:Set.reverse_remove', 'pony.orm.core:SessionCache._calc_modified_m2m', 'pony.orm.core:Set.add_m2m', 'pony.orm.core:Set.remove_m2m'],
              CL.configs, CL.case, [('session_content_and_committed_rows_equal_the_set_the_operations_leave', CL.spec)], level='bounded', bound=CL.BOUND),
 ]
+
+
+from contracts import c33 as _c33
+# what hooks write while a flush is in progress belongs to the committed state too (contracted end to end under C33 and shared here)
+CONTRACTS += [c for c in _c33.CONTRACTS if c.id == 'hooks_end_to_end']
